@@ -233,7 +233,7 @@ Definition obind {A B} (x : option A) (f : A -> option B) : option B := match x 
 Notation "'olet' x := a 'in' b" := (obind a (fun x => b)) (at level 200, x name, a at level 100, b at level 200).
 
 (* the row of an OpType variant: None as soon as one table lacks it *)
-Definition row (k : string) : option rrow :=
+Definition krow (k : string) : option rrow :=
   olet a := lookup k rs_op_tag in
   olet b := lookup k rs_allowed_children in
   olet c := lookup k rs_allowed_first_child in
@@ -259,11 +259,11 @@ Definition no_row : rrow :=
      rw_edge_check := None; rw_check := "?"; rw_sig := false; rw_dfparent := false; rw_static_in := None;
      rw_static_out := None; rw_other_in := None; rw_other_out := None; rw_cnt_in := "?"; rw_cnt_out := "?" |}.
 (* the row of an operation of Validity.v (no_row is never used: vrow_total) *)
-Definition vrow (o : vop) : rrow := match row (rname o) with Some r => r | None => no_row end.
+Definition vrow (o : vop) : rrow := match krow (rname o) with Some r => r | None => no_row end.
 Definition vtag (o : vop) : string := rw_tag (vrow o).
 
 (* every table has a row for every variant an operation stands for, and it is the same row *)
-Theorem vrow_total : forall o k, In k (rnames o) -> row k = Some (vrow o).
+Theorem vrow_total : forall o k, In k (rnames o) -> krow k = Some (vrow o).
 Proof.
   intros o k H.
   destruct o; cbn [rnames rname] in H;
